@@ -13,16 +13,19 @@ A program is a list of statements about one arena `b` (declared first) and numbe
 * `newSrc s`       — `let s = <owned local, e.g. std String>` used as the source of a copy;
 * `moveArena`      — `let b = b;` / moving the arena into another thread or binding (it stays usable
   under its new name);
-* `endArena how`   — the arena goes away: `drop(b)` or the end of the block that declared it (all
-  numbered variables are declared outside that block);
+* `endArena how`   — the arena goes away: `drop(b)`, or the end of the block that declared it (the
+  numbered variables mentioned after that point are declared before the block, all others inside
+  it after `b`, so that they die before `b` does);
 * `ret x`          — `x` is returned from the function that owns the arena.
 
 The checker is the liveness rule of rustc's borrow checker (NLL) specialised to these programs: the
 result of a call holds a loan on the arena iff the signature ties the result to the borrow
 (`loanOf`); a loan is *live* at a statement iff its holder is not moved and is mentioned by a later
 statement, or has drop glue (its destructor runs at the end of the enclosing scope, after every
-statement of the program); a statement that needs access to the arena is rejected iff a live loan
-conflicts with that access.  Derived values inherit the loans of the value they came from.
+statement of the program — except at the end of the arena's own block, where a holder that is not
+mentioned afterwards is block-local and is destroyed before the arena); a statement that needs
+access to the arena is rejected iff a live loan conflicts with that access.  Unwinding paths are
+not modelled.  Derived values inherit the loans of the value they came from.
 Second-level conflicts (using `v` while `v.drain(..)` is alive) are not about the arena and are not
 modelled; the probe generator does not produce them.
 
@@ -127,12 +130,6 @@ def glueOf (t : Sigs) (s : MethodSig) : Bool :=
   | some n => structNeedsDrop t n
   | none => false
 
-inductive Access where
-  | shared
-  | excl
-  | moveOut
-  | scopeOut
-  deriving Repr, DecidableEq, Inhabited
 
 /-- the access to the arena a statement performs -/
 def access (t : Sigs) : Stmt → Option Access
@@ -160,26 +157,40 @@ def mentions (x : Var) : Stmt → Bool
 
 def usedLater (x : Var) (rest : List Stmt) : Bool := rest.any (mentions x)
 
-def Info.live (i : Info) (x : Var) (rest : List Stmt) : Bool :=
-  !i.moved && (i.glue || usedLater x rest)
+inductive Access where
+  | shared
+  | excl
+  | moveOut
+  | scopeOut
+  deriving Repr, DecidableEq, Inhabited
+
+/-- `g`: does a destructor at the end of the enclosing scope count as a later use -/
+def Info.live (i : Info) (x : Var) (rest : List Stmt) (g : Bool) : Bool :=
+  !i.moved && ((g && i.glue) || usedLater x rest)
 
 /-- some variable holds a live loan of kind `k` on the arena -/
-def liveLoan (vars : List (Var × Info)) (rest : List Stmt) (k : LoanKind) : Bool :=
-  vars.any (fun p => p.2.loan == some k && p.2.live p.1 rest)
+def liveLoan (vars : List (Var × Info)) (rest : List Stmt) (k : LoanKind) (g : Bool) : Bool :=
+  vars.any (fun p => p.2.loan == some k && p.2.live p.1 rest g)
 
 /-- some live variable borrows from the source `s` -/
 def liveSrc (vars : List (Var × Info)) (rest : List Stmt) (s : Var) : Bool :=
-  vars.any (fun p => p.2.src == some s && p.2.live p.1 rest)
+  vars.any (fun p => p.2.src == some s && p.2.live p.1 rest true)
+
+/-- at the end of the arena's own block a holder that is not mentioned afterwards is block-local
+(declared after the arena) and dies first: its destructor does not keep the loan alive -/
+def Access.glueCounts : Access → Bool
+  | .scopeOut => false
+  | _ => true
 
 def arenaErr (σ : State) (rest : List Stmt) (a : Access) : Option Err :=
   if !σ.arenaAlive then some .E0382 else
+  let sh := liveLoan σ.vars rest .shared a.glueCounts
+  let ex := liveLoan σ.vars rest .excl a.glueCounts
   match a with
-  | .shared => if liveLoan σ.vars rest .excl then some .E0502 else none
-  | .excl =>
-    if liveLoan σ.vars rest .shared then some .E0502
-    else if liveLoan σ.vars rest .excl then some .E0499 else none
-  | .moveOut => if liveLoan σ.vars rest .shared || liveLoan σ.vars rest .excl then some .E0505 else none
-  | .scopeOut => if liveLoan σ.vars rest .shared || liveLoan σ.vars rest .excl then some .E0597 else none
+  | .shared => if ex then some .E0502 else none
+  | .excl => if sh then some .E0502 else if ex then some .E0499 else none
+  | .moveOut => if sh || ex then some .E0505 else none
+  | .scopeOut => if sh || ex then some .E0597 else none
 
 /-- `x` must be bound and not moved -/
 def needVar (σ : State) (x : Var) : Option Err :=
